@@ -319,7 +319,8 @@ def judge(ctx, lines, tag):
         if r['e'] == 'log':
             slim.append({k: r[k] for k in ('e', 'name', 'files', 'kv', 'keys', 'npost')})
         else:
-            slim.append({k: r[k] for k in ('e', 'j', 'dmg', 'open1', 'd1', 'st1', 'acked', 'open2', 'd2', 'st2', 'kept')})
+            slim.append(dict({k: r[k] for k in ('e', 'j', 'dmg', 'open1', 'd1', 'st1', 'acked', 'open2', 'd2', 'st2', 'kept')},
+                             g=r.get('g', r['d2']), gok=r.get('gok', True)))
     write_ndjson(tp, slim)
     ok, hw, st, out = tlc_trace(ctx, 'TRACE_WalReader', 'TRACE_WalReader.cfg', tp, timeout=900, tag=tag)
     if not ok or hw != len(lines) + 1:
@@ -350,6 +351,7 @@ REASON_TEXT = {
     'post2': 'writes acknowledged after the recovery are not recovered by the next opening',
     'state2': 'the engine after the second opening does not show the delivered entries',
     'kept': 'an undamaged log file was removed or changed',
+    'from1': 'WAL.GetEntriesFrom(1) on the live log does not yield what a replay of the directory yields (a joining replica is served something else than the primary recovered)',
 }
 
 
@@ -414,6 +416,7 @@ def c10_selftest(ctx, loglines):
     m = json.loads(json.dumps(base)); k = sorted(m['st1'])[0]; m['st1'][k] = 'v999'; muts.append(('state1', m))
     m = json.loads(json.dumps(base)); m['d2'] = m['d2'][:-1]; muts.append(('post2', m))
     m = json.loads(json.dumps(base)); m['kept'] = False; muts.append(('kept', m))
+    m = json.loads(json.dumps(base)); m['g'] = m.get('g', m['d2'])[1:]; muts.append(('from1', m))
     m = json.loads(json.dumps(base)); m['open1'] = False; muts.append(('open1', m))
     rej = judge(ctx, [logline, base] + [x for _, x in muts], 'selftest')
     if 0 in rej or 1 in rej:
